@@ -4,17 +4,19 @@ pub open spec fn TT() -> int { TW() * TW() }             // the byte counter is 
 pub open spec fn rotr(x: u64, n: u64) -> u64 { (x >> n) | (x << ((64 - n) as u64)) }
 pub open spec fn addw(a: u64, b: u64) -> u64 { a.wrapping_add(b) }
 pub open spec fn IV() -> Seq<u64> { seq![0x6a09e667f3bcc908u64, 0xbb67ae8584caa73bu64, 0x3c6ef372fe94f82bu64, 0xa54ff53a5f1d36f1u64, 0x510e527fade682d1u64, 0x9b05688c2b3e6c1fu64, 0x1f83d9abfb41bd6bu64, 0x5be0cd19137e2179u64] }
-pub open spec fn SIGMA() -> Seq<Seq<int>> { seq![
-    seq![0int, 1, 2, 3, 4, 5, 6, 7, 8, 9, 10, 11, 12, 13, 14, 15],
-    seq![14int, 10, 4, 8, 9, 15, 13, 6, 1, 12, 0, 2, 11, 7, 5, 3],
-    seq![11int, 8, 12, 0, 5, 2, 15, 13, 10, 14, 3, 6, 7, 1, 9, 4],
-    seq![7int, 9, 3, 1, 13, 12, 11, 14, 2, 6, 5, 10, 4, 0, 15, 8],
-    seq![9int, 0, 5, 7, 2, 4, 10, 15, 14, 1, 11, 12, 6, 8, 3, 13],
-    seq![2int, 12, 6, 10, 0, 11, 8, 3, 4, 13, 7, 5, 15, 14, 1, 9],
-    seq![12int, 5, 1, 15, 14, 13, 4, 10, 0, 7, 6, 3, 9, 2, 8, 11],
-    seq![13int, 11, 7, 14, 12, 1, 3, 9, 5, 0, 15, 4, 8, 6, 2, 10],
-    seq![6int, 15, 14, 9, 11, 3, 0, 8, 12, 2, 13, 7, 1, 4, 10, 5],
-    seq![10int, 2, 8, 4, 7, 6, 1, 5, 15, 11, 9, 14, 3, 12, 13, 0]] }
+// message word schedule SIGMA (RFC 7693 2.7), one row per round (rounds 10 and 11 of BLAKE2b reuse rows 0 and 1)
+pub open spec fn SIGMA(r: int) -> Seq<int> {
+    if r == 0 { seq![0int, 1, 2, 3, 4, 5, 6, 7, 8, 9, 10, 11, 12, 13, 14, 15] }
+    else if r == 1 { seq![14int, 10, 4, 8, 9, 15, 13, 6, 1, 12, 0, 2, 11, 7, 5, 3] }
+    else if r == 2 { seq![11int, 8, 12, 0, 5, 2, 15, 13, 10, 14, 3, 6, 7, 1, 9, 4] }
+    else if r == 3 { seq![7int, 9, 3, 1, 13, 12, 11, 14, 2, 6, 5, 10, 4, 0, 15, 8] }
+    else if r == 4 { seq![9int, 0, 5, 7, 2, 4, 10, 15, 14, 1, 11, 12, 6, 8, 3, 13] }
+    else if r == 5 { seq![2int, 12, 6, 10, 0, 11, 8, 3, 4, 13, 7, 5, 15, 14, 1, 9] }
+    else if r == 6 { seq![12int, 5, 1, 15, 14, 13, 4, 10, 0, 7, 6, 3, 9, 2, 8, 11] }
+    else if r == 7 { seq![13int, 11, 7, 14, 12, 1, 3, 9, 5, 0, 15, 4, 8, 6, 2, 10] }
+    else if r == 8 { seq![6int, 15, 14, 9, 11, 3, 0, 8, 12, 2, 13, 7, 1, 4, 10, 5] }
+    else { seq![10int, 2, 8, 4, 7, 6, 1, 5, 15, 11, 9, 14, 3, 12, 13, 0] }
+}
 // mixing function G (RFC 7693 3.1) on indices (a,b,c,d) with message words x, y
 pub open spec fn G(v: Seq<u64>, a: int, b: int, c: int, d: int, x: u64, y: u64) -> Seq<u64> {
     let a1 = addw(addw(v[a], v[b]), x); let d1 = rotr(v[d] ^ a1, 32);
@@ -24,7 +26,7 @@ pub open spec fn G(v: Seq<u64>, a: int, b: int, c: int, d: int, x: u64, y: u64) 
     v.update(a, a2).update(b, b2).update(c, c2).update(d, d2)
 }
 pub open spec fn round(v: Seq<u64>, m: Seq<u64>, r: int) -> Seq<u64> {
-    let s = SIGMA()[r % 10];
+    let s = SIGMA(r % 10);
     let v1 = G(G(G(G(v, 0, 4, 8, 12, m[s[0]], m[s[1]]), 1, 5, 9, 13, m[s[2]], m[s[3]]), 2, 6, 10, 14, m[s[4]], m[s[5]]), 3, 7, 11, 15, m[s[6]], m[s[7]]);
     G(G(G(G(v1, 0, 5, 10, 15, m[s[8]], m[s[9]]), 1, 6, 11, 12, m[s[10]], m[s[11]]), 2, 7, 8, 13, m[s[12]], m[s[13]]), 3, 4, 9, 14, m[s[14]], m[s[15]])
 }
